@@ -111,3 +111,23 @@ Theorem C08_utmap_cells_match_entries :
     List.length (ul_map l') = List.length (ul_list l') /\ List.length (ul_nodes l') = List.length (ul_list l').
 Proof. exact @ul_cells_match_entries. Qed.
 Print Assumptions C08_utmap_cells_match_entries.
+
+(* ---- tlru_cache (uni = false) and utlru_cache (uni = true) (TtlLit.v: slots with stored list, ttl
+   and index iterators, the LRU list with its partition iterator, the deadline multimap / the
+   sorted deadline list with do_ttl_position, clean_expired_values, update_ttl, clear) ---- *)
+Require Import Capp.TtlLru Capp.TtlLruFacts Capp.TtlLit Capp.TtlLitFacts.
+
+Theorem C08_tlru_utlru_no_UB_on_any_history :
+  forall (K V : Type) (E : EqDec K) (uni : bool) cap ttl (h : list (ev K V)),
+    1 <= cap -> mono_from 0 h ->
+    exists l', tt_run uni (ttll_init cap ttl) h = Ok (l', snd (run tl_step (tl_init uni cap ttl) h)) /\
+               tt_rep uni l' (fst (run tl_step (tl_init uni cap ttl) h)).
+Proof. exact @tt_no_UB_on_any_history. Qed.
+Print Assumptions C08_tlru_utlru_no_UB_on_any_history.
+
+Theorem C08_tlru_utlru_value_cells_constant :
+  forall (K V : Type) (E : EqDec K) (uni : bool) cap ttl (h : list (ev K V)) l' rs,
+    1 <= cap -> mono_from 0 h ->
+    tt_run uni (ttll_init cap ttl) h = Ok (l', rs) -> List.length (tt_elems l') = cap.
+Proof. exact @tt_value_cells_constant. Qed.
+Print Assumptions C08_tlru_utlru_value_cells_constant.
